@@ -44,14 +44,14 @@ SepAmbiguous(e) ==
 \* does the law "parse(format(v)) = v" apply to this event?
 Applies(e) ==
   CASE e.roundtrip_builtin -> TRUE                       \* built-in round-trip / ISO patterns: every value
-    [] e.type = "LocalTime" -> Understood(e.tokens, TimeVocab) /\ DelimitedFor(e.type, e.tokens) /\ TimeRepresentable(e.tokens, e.value, e.ampm_ok)
+    [] e.type = "LocalTime" -> Understood(e.tokens, TimeVocab) /\ DelimitedFor(e.type, e.tokens) /\ TimeRepresentableT(e.tokens, e.value, e.ampm_ok, IF Has(e, "ttemplate") THEN e.ttemplate ELSE Midnight)
     [] e.type = "Offset" -> Understood(e.tokens, OffsetVocab) /\ DelimitedFor(e.type, e.tokens) /\ OffsetRepresentable(e.tokens, e.value)
     [] e.type = "LocalDate" -> Understood(e.tokens, DateVocab) /\ DelimitedFor(e.type, e.tokens) /\ DateRepresentable(e.tokens, e.value, e.template, e.text_ok)
     [] e.type = "AnnualDate" -> Understood(e.tokens, DateVocab) /\ DelimitedFor(e.type, e.tokens) /\ AnnualRepresentable(e.tokens, e.value, e.template, e.text_ok)
     [] e.type = "LocalDateTime" ->
          /\ Understood(e.tokens, DateVocab \cup TimeVocab) /\ DelimitedFor(e.type, e.tokens)
          /\ DateRepresentable(e.tokens, e.value, e.template, e.text_ok)
-         /\ TimeRepresentable(e.tokens, e.value, e.ampm_ok)
+         /\ TimeRepresentableT(e.tokens, e.value, e.ampm_ok, IF Has(e, "ttemplate") THEN e.ttemplate ELSE Midnight)
     [] e.type = "Duration" -> Understood(e.tokens, DurationVocab) /\ DelimitedFor("Offset", e.tokens) /\ DurationRepresentable(e.tokens, e.parts)
     [] e.type = "Instant" ->
          /\ Understood(e.tokens, (DateVocab \ {"c", "g", "gg"}) \cup TimeVocab) /\ Delimited(e.tokens)
@@ -69,7 +69,10 @@ Step(e) ==
      THEN /\ Check(e.parsed_ok, "representable_value_parses_back")
           /\ (e.parsed_ok => Check(e.parsed = e.value, "parsing_the_formatted_text_returns_the_original_value"))
      ELSE TRUE
+  \* (with a template whose fraction of a second is not zero, a text without the optional fraction reads back the template's, which
+  \*  re-formatting then writes: such patterns make no re-format promise)
   /\ IF Has(e, "parsed_ok") /\ e.parsed_ok /\ Has(e, "reformat") /\ ~SepAmbiguous(e)
+        /\ ~(Has(e, "ttemplate") /\ e.ttemplate.n # 0 /\ \E i \in 1..Len(e.tokens) : SepOptAt(e.tokens, i))
         /\ (e.roundtrip_builtin \/ (DelimitedFor(IF e.type = "Duration" THEN "Offset" ELSE e.type, e.tokens)
                                      /\ (e.type = "Duration" => DurationNonRedundant(e.tokens))
                                      \* text fields only where the culture's texts can be told apart when parsing
